@@ -398,7 +398,8 @@ func (an *Analysis) createType(typ types.Type, ctx context) Type {
 	}
 
 	if alias, isAlias := typ.(*types.Alias); isAlias {
-		typ = types.Unalias(alias)
+		// the target may already have been analysed : share its node
+		return an.handleType(types.Unalias(alias), ctx)
 	}
 
 	// special case for time.Time, which require the name information
